@@ -121,7 +121,7 @@ def pddlKeywords (T : Tables) (plus pddl3 temporal contingent : Bool) : List Nam
 structure PddlEnv where
   /-- `self.pddl_keywords` -/
   kw : List Name
-  /-- `self.problem_kind.has_hierarchical_typing()` -/
+  /-- "a user type named `object` must be renamed": `problem_kind.has_hierarchical_typing() or len(problem.user_types) > 1` -/
   hier : Bool
   /-- the names `n` with `self.problem.has_name(n)` -/
   names : List Name
